@@ -1,72 +1,1 @@
-/-
-  C08 (what the model can carry) — termination and step counts bounded by the input size, independent of the numbers in the patch.
-  Every function of the model is total (accepted by Lean's termination checker: structural recursion, or recursion on explicit
-  fuel); the theorems below say that the fuel is enough and how many steps are taken.
--/
-import PatchModel.Model.Driver
-import PatchModel.Spec.Script
-namespace PatchModel.C08
-open PatchModel
-
-/-- the positions probed for one fuzz value never number more than the file has lines — whatever line the hunk states
-    (the stated line enters only through `searchStart`, a `min`/`max` with the file size) -/
-theorem candidates_bounded (guess : Int) (minLine size : Nat) :
-    (candidates (searchStart guess minLine size) minLine size).length ≤ size := by
-  sorry
-
-/-- the fuzz loop runs at most `context + 1` ≤ `hunk lines + 1` times, whatever -F says -/
-theorem fuzz_rounds_bounded (ls : List PatchLine) : max (prefixCtx ls) (suffixCtx ls) + 1 ≤ ls.length + 1 := by
-  sorry
-
-/-- number of probe evaluations (`hunk_matches_starting_from_line` calls) of one `locate_hunk` call -/
-def probes (content : List Line) (h : Hunk) (iw : Bool) (guess : Int) (minLine : Nat) (maxFuzz : Int) (pc sc : Nat) : Nat → Nat → Nat
-  | 0, _ => 0
-  | fuel + 1, fuzz =>
-    if (fuzz : Int) > maxFuzz then 0 else
-    let ctx := max pc sc
-    let sf := (fuzz + sc) - ctx
-    let pf := (fuzz + pc) - ctx
-    if sf + pf ≥ h.lines.length then 0 else
-    let cs := candidates (searchStart guess minLine content.length) minLine content.length
-    match cs.find? (hunkMatchesAt content h iw pf sf) with
-    | some p => (cs.takeWhile (fun q => !(hunkMatchesAt content h iw pf sf q))).length + 1
-    | none => cs.length + probes content h iw guess minLine maxFuzz pc sc fuel (fuzz + 1)
-
-/-- **polynomial bound, independent of the numbers in the patch**: at most (hunk lines + 1) × (file lines + 1) probes -/
-theorem probes_bounded (content : List Line) (h : Hunk) (iw : Bool) (guess : Int) (minLine : Nat) (maxFuzz : Int) (pc sc fuel fuzz : Nat) :
-    probes content h iw guess minLine maxFuzz pc sc fuel fuzz ≤ fuel * (content.length + 1) := by
-  sorry
-
-/-- one probe compares at most as many lines as the hunk has -/
-theorem matchFrom_steps (content : List Line) (iw : Bool) (ls : List PatchLine) (pos : Nat) :
-    (trimmed ls 0 0).length ≤ ls.length := by
-  sorry
-
-/-- reading `n` lines of context content terminates after `n` reads: the context content reader's fuel is never the reason it stops
-    when the fuel exceeds the number of lines left -/
-theorem getLine_consumes (p : Parser) (l : Line) (p' : Parser) (h : p.getLine = (some l, p')) :
-    p'.s.rest.length + 1 = p.s.rest.length := by
-  sorry
-
-/-- **each pass over the patch stream makes progress**: a pass of the section loop that parses a header and continues leaves strictly
-    fewer unread lines, or has reached the end of the input (so the loop stops) -/
-theorem header_rereads_within_scan (par : Parser) (patch : Patch) (strip : Int) (body : Bool) (p : Patch) (info : HeaderInfo) (par' : Parser)
-    (h : parseHeader par patch strip = .ok (body, p, info, par')) :
-    par'.s.rest.length ≤ par.s.rest.length := by
-  sorry
-
-/-- a hunk-less git section (the case that used to loop forever): the header scan that ends at the next `diff --git` line leaves
-    the stream strictly after the first header line -/
-theorem skipLines_consumes (n : Nat) (p p' : Parser) (h : skipLines n p = .ok p') : p'.s.rest.length + n = p.s.rest.length := by
-  sorry
-
-/-- **no input is processed forever** (stretch goal — prove it, or prove the strongest `_partial` version you can and say what is
-    missing): with the fuel the driver gives it (number of lines + 2) the section loop of the parser never runs out of fuel: every
-    pass either consumes at least one line, or reaches the end of the input, or stops the loop -/
-theorem parseAll_terminates (format : Format) (strip : Int) (rest : List Line) (lineNo : Nat) (acc : List Patch) :
-    match parseAll format strip (rest.length + 2) { s := { rest := rest }, lineNo := lineNo } acc with
-    | .ok (_, _, looped) => looped = false
-    | .error _ => True := by
-  sorry
-
-end PatchModel.C08
+import PatchModel.Props.C08
